@@ -173,7 +173,7 @@ TEndRecord ==
            /\ nextRid' = nextRid + 1
            /\ logs' = AppendRec([rid |-> nextRid, h |-> 0, cid |-> 0, w |-> <<>>])
            /\ UNCHANGED <<hist, logical, calls, queue, nextCid, covl, lw, rpos, lovl, cw, lastEnacted,
-                          tabs, dtabs, flushedCq, durable, mode, rcv, ncrash, naux, lastRec, rdr, trace>>)
+                          tabs, dtabs, flushedCq, applied, durable, mode, rcv, ncrash, naux, lastRec, rdr, trace>>)
     /\ Advance /\ UNCHANGED closed
 
 TCleanCovl ==
@@ -214,6 +214,7 @@ TEnactEnd ==
     /\ cw.pc = "writing" /\ cw.rec.rid = Arg(1)
     /\ tabs' = TabsApply(tabs, cw.rec)
     /\ lastEnacted' = cw.rec.rid
+    /\ applied' = Max(applied, cw.rec.h)
     /\ cw' = [cw EXCEPT !.pc = "written", !.todo = {}]
     /\ UNCHANGED <<hist, logical, calls, queue, nextCid, covl, lw, nextRid, logs, rpos, lovl,
                    dtabs, flushedCq, durable, mode, rcv, ncrash, naux, lastRec, rdr, trace>>
@@ -238,7 +239,7 @@ TTablesFlushed ==
     /\ IF mode = "open" /\ NumCq > flushedCq THEN FlushTables
        ELSE IF mode = "open"
        THEN dtabs' = tabs /\ UNCHANGED <<hist, logical, calls, queue, nextCid, covl, lw, nextRid, logs, rpos, lovl, cw,
-                   lastEnacted, tabs, flushedCq, durable, mode, rcv, ncrash, naux, lastRec, rdr, trace>>
+                   lastEnacted, tabs, flushedCq, applied, durable, mode, rcv, ncrash, naux, lastRec, rdr, trace>>
        ELSE Stutter
     /\ Advance /\ UNCHANGED closed
 
@@ -263,7 +264,7 @@ TClosed ==
     /\ closed' = TRUE
     /\ rcv' = [rcv EXCEPT !.any = FALSE]
     /\ UNCHANGED <<hist, logical, calls, queue, nextCid, covl, lw, nextRid, logs, rpos, lovl, cw, lastEnacted,
-                   tabs, dtabs, flushedCq, durable, mode, ncrash, naux, lastRec, rdr, trace>>
+                   tabs, dtabs, flushedCq, applied, durable, mode, ncrash, naux, lastRec, rdr, trace>>
     /\ Advance
 
 \* replay inside Db::open after a clean close
@@ -274,7 +275,7 @@ TClosedReplay ==
     /\ IF Rec[l].e = "EnactEnd"
        THEN /\ lastEnacted' = Arg(1) /\ rcv' = [rcv EXCEPT !.any = TRUE]
             /\ UNCHANGED <<hist, logical, calls, queue, nextCid, covl, lw, nextRid, logs, rpos, lovl, cw, tabs, dtabs,
-                           flushedCq, durable, mode, ncrash, naux, lastRec, rdr, trace>>
+                           flushedCq, applied, durable, mode, ncrash, naux, lastRec, rdr, trace>>
        ELSE Stutter
     /\ Advance /\ UNCHANGED closed
 
@@ -287,7 +288,7 @@ TReopened ==
     /\ nextRid' = IF rcv.any THEN lastEnacted + 1 ELSE 1
     /\ lastEnacted' = IF rcv.any THEN lastEnacted ELSE 1
     /\ nextCid' = 0
-    /\ durable' = Len(hist)
+    /\ durable' = Len(hist) /\ applied' = Len(hist)
     /\ UNCHANGED <<hist, logical, calls, queue, lw, cw, mode, rcv, ncrash, naux, lastRec, rdr, trace>>
     /\ Advance
 
@@ -297,9 +298,9 @@ TCrash ==
     /\ Volatile
     /\ mode' = "crashed"
     /\ flushedCq' = 0 /\ rpos' = 0
-    /\ rcv' = [f |-> 0, r |-> 0, any |-> FALSE]
+    /\ rcv' = [f |-> 0, r |-> 0, any |-> FALSE, pre |-> 0, dmg |-> "none"]
     /\ closed' = FALSE
-    /\ UNCHANGED <<hist, logical, calls, nextRid, logs, lastEnacted, tabs, dtabs, durable, ncrash, naux, lastRec, rdr, trace>>
+    /\ UNCHANGED <<hist, logical, calls, nextRid, logs, lastEnacted, tabs, dtabs, applied, durable, ncrash, naux, lastRec, rdr, trace>>
     /\ Advance
 
 \* events of the replay inside Db::open of the image
@@ -308,7 +309,7 @@ TReplayEnact ==
     /\ lastEnacted' = Arg(1)
     /\ rcv' = [rcv EXCEPT !.any = TRUE]
     /\ UNCHANGED <<hist, logical, calls, queue, nextCid, covl, lw, nextRid, logs, rpos, lovl, cw, tabs, dtabs,
-                   flushedCq, durable, mode, ncrash, naux, lastRec, rdr, trace>>
+                   flushedCq, applied, durable, mode, ncrash, naux, lastRec, rdr, trace>>
     /\ Advance /\ UNCHANGED closed
 
 TReplayOther ==
@@ -333,8 +334,8 @@ TRecovered ==
              /\ hist' = SubSeq(hist, 1, n)
              /\ logical' = s
              /\ tabs' = s /\ dtabs' = s
-             /\ durable' = n
-             /\ lastRec' = [n |-> n, lo |-> durable, ok |-> TRUE]
+             /\ durable' = n /\ applied' = n
+             /\ lastRec' = [n |-> n, lo |-> durable, ok |-> TRUE, pre |-> 0]
     /\ logs' = <<>>
     /\ nextRid' = IF rcv.any THEN lastEnacted + 1 ELSE 1
     /\ lastEnacted' = IF rcv.any THEN lastEnacted ELSE 1
@@ -347,7 +348,7 @@ TStoreErr ==
     /\ IsEvent("StoreErr") /\ mode = "open"
     /\ mode' = "err"
     /\ UNCHANGED <<hist, logical, calls, queue, nextCid, covl, lw, nextRid, logs, rpos, lovl, cw, lastEnacted,
-                   tabs, dtabs, flushedCq, durable, rcv, ncrash, naux, lastRec, rdr, trace>>
+                   tabs, dtabs, flushedCq, applied, durable, rcv, ncrash, naux, lastRec, rdr, trace>>
     /\ Advance /\ UNCHANGED closed
 
 \* events without a counterpart in this module (worker protocol, locks)
